@@ -8,7 +8,7 @@ W=/tmp/seed$suf-$id
 cd "$W" || exit 2
 [ -s SEED_PATCH.diff ] || { echo "no SEED_PATCH.diff"; exit 2; }
 demo=""
-for d in evaluate/tests/seed_demo.rs train/tests/seed_demo.rs vaporetto/tests/seed_demo.rs vaporetto_rules/tests/seed_demo.rs vaporetto_tantivy/tests/seed_demo.rs manipulate_model/tests/seed_demo.rs predict/tests/seed_demo.rs seed_demo.sh; do [ -f "$d" ] && demo=$d; done
+for d in convert_kytea_model/tests/seed_demo.rs evaluate/tests/seed_demo.rs train/tests/seed_demo.rs vaporetto/tests/seed_demo.rs vaporetto_rules/tests/seed_demo.rs vaporetto_tantivy/tests/seed_demo.rs manipulate_model/tests/seed_demo.rs predict/tests/seed_demo.rs seed_demo.sh; do [ -f "$d" ] && demo=$d; done
 [ -z "$demo" ] && demo=$(git status --porcelain | grep '^??' | grep -v SEED_PATCH | awk '{print $2}' | head -1)
 echo "demo: $demo"
 run_demo() {
